@@ -78,6 +78,8 @@ def build_text(sc):
             else:
                 lines.append(sc.get("lead", " ") + sc.get("sep", " ").join(cell_text(sc, i, j, fmt) for j in range(c)))
         lines += noise.get(r, [])
+        if sc.get("ctrlz") and not sc.get("tail"):
+            lines.append(sc["ctrlz"])
     for t in sc.get("tail", []):
         lines += t
     return docmodel.join(lines, "\n", sc.get("final_newline", True))
@@ -119,7 +121,7 @@ class C07(Prop):
             d = c if rel < 0.4 else (g.randint(0, c - 1) if rel < 0.7 and c > 0 else g.randint(c + 1, c + 4))
             d = min(d, 8) if d != c else d
             sc = {"declared": d, "cols": c, "rows": r, "wrap": False, "lead": g.choice(["", " ", "   ", "\t"]),
-                  "sep": g.choice([" ", "  ", "\t", "     "])}
+                  "sep": g.choice([" ", "  ", "\t", "     ", " ", "  ", "\t", " \x0c ", "\x0b", " \x1c", "\x1d ", "\x1e", "\t\x0c"])}
             if d == 0 and g.random() < 0.5:
                 sc["curve_section"] = False
             if g.random() < 0.15:
@@ -127,6 +129,8 @@ class C07(Prop):
             if g.random() < 0.2:
                 sc["noise"] = [[g.choice([0, r, g.randint(0, r)]), g.choice(["", "# comment", "   # indented comment", "  ", "#"])]
                                for _ in range(g.randint(1, 3))]
+            if g.random() < 0.06:
+                sc["ctrlz"] = g.choice(["\x1a", " \x1a", "\x1a\x1a"])      # a DOS end-of-file mark on a line of its own after the last row
             if g.random() < 0.12 and c >= 2:
                 sc["ragged"] = [g.randint(1, c + 1) for _ in range(g.randint(2, 4))]
         if not wrap and not sc.get("ragged") and g.random() < 0.12:
